@@ -16,11 +16,16 @@ import symgen
 import symlib as L
 import vlib
 
-THEOREMS = ["C06_coherent", "C06_total", "C06_nonvacuous", "C06_nonvacuous_answers", "C06_double_visit_incoherent"]
+THEOREMS = ["C06_coherent", "C06_total", "C06_nonvacuous", "C06_nonvacuous_answers", "C06_double_visit_incoherent",
+            "C06_coherent_core_partial", "C06_core_nonvacuous"]
 TRUSTED = [
     "Coq 8.16.1 kernel; vm_compute only in the closed Examples (non-vacuity, D2 witness)",
-    "the theorem is about the op-level model: the indexer (index.rs) is NOT modelled; what it guarantees about its calls is the "
+    "C06_coherent is about the op-level model: what the indexer (index.rs) guarantees about its calls is the "
     "checked hypothesis ops_wf (evaluated by the extracted model on the real op log of every generated workspace)",
+    "C06_coherent_core_partial replaces ops_wf by a proof over group scope's indexer model (Indexer.v) for SINGLE-FILE Core workspaces; its "
+    "hypotheses are stmt_ok (identifiers of the Core AST are identifier tokens carrying their text; proved for the model pipeline in "
+    "proofs/BridgeSymbol.v) and the decidable log_fresh (no source range visited twice), evaluated by ixbridge_run on every compared "
+    "workspace; that Indexer.v + IndexerOps.abs equals what index.rs does is the CHECKED state equality 'bridge_to_indexer_model'",
     "hook H3 logs every mutating SymbolMap call with its arguments (crates/ide/src/symbol_map.rs, symbol_map/*.rs, index/context.rs::error, cfg tablegen_lsp_verif)",
     "modelled, not verified: iset::IntervalMap (insert replaces on equal interval, point query = entries with lo <= p < hi in (lo,hi) order), "
     "id_arena (alloc appends), HashMap/IndexMap as association lists",
@@ -130,6 +135,40 @@ def run(ctx):
                        "at": [p, o], "what": what, "all": [list(x) for x in e["c06"][:10]], "seed": ctx.seed, "kind": kind,
                        "violating_workspaces_in_this_run": len(bad_inputs)})
         found = True
+    # bridge tie: the symbol-map state that the indexer MODEL of group scope stands for (Indexer.index_ws on the typed Core AST
+    # of the REAL parse, then IndexerOps.abs) must equal the state obtained by replaying the REAL op log
+    bridge = {"compared": 0, "agree": 0, "noncore": 0, "status": "ok", "single_file": 0, "log_fresh_true": 0, "log_fresh_false": 0,
+              "log_fresh_false_but_ops_wf": 0}
+    try:
+        bdir = vlib.build_harness(True, bins=["symdump", "coreast"])
+        ix = vlib.build_model("ixbridge")
+        sub = [e for e in res if e["c03"] is None and e["model"] and e["model"].get("run") == "ok"][:(400 if ctx.quick else 3000)]
+        brs = L.bridge_states(bdir, ix, [e["ws"] for e in sub])
+        for e, b in zip(sub, brs):
+            d = L.bridge_compare(e["real"], e["model"], b)
+            if d is None:
+                bridge["noncore"] += 1
+                continue
+            bridge["compared"] += 1
+            if d:
+                ties.append((e, "bridge: indexer model (group scope) + IndexerOps.abs disagrees with the replay of the real op log: " + d[0]))
+            else:
+                bridge["agree"] += 1
+            # hypothesis log_fresh of C06_coherent_core_partial (single-file workspaces): evaluated on the indexer model's state.
+            # It is the model-side counterpart of the freshness part of ops_wf: when the real op log satisfies ops_wf and the two
+            # states agree, log_fresh = false means the hypothesis of the core theorem is stronger than what the indexer guarantees
+            if len(e["ws"]["files"]) == 1:
+                bridge["single_file"] += 1
+            if b.get("log_fresh"):
+                bridge["log_fresh_true"] += 1
+            else:
+                bridge["log_fresh_false"] += 1
+                if e["model"].get("ops_wf") and not d:
+                    bridge["log_fresh_false_but_ops_wf"] += 1
+                    ties.append((e, "bridge: hypothesis log_fresh of C06_coherent_core_partial is false on the indexer model's state although "
+                                    "the real op log satisfies ops_wf and both states agree"))
+    except Exception as ex:      # the bridge is an additional tie: its unavailability is recorded, not fatal
+        bridge["status"] = "unavailable: %s" % str(ex)[-300:]
     # extraction cross-check: the same side conditions and answers evaluated by vm_compute inside Coq
     xc = [(e["ws"], e["real"], e["model"]) for e in res
           if e["model"] and e["model"].get("run") == "ok" and not e["diffs"] and 10 <= len(e["real"]["oplog"] or []) <= 150][:6]
@@ -161,6 +200,7 @@ def run(ctx):
         "traces_validated_against_impl": sum(1 for e in res + cres if e["model"] is not None and not e["diffs"] and "model_crash" not in e["model"]),
         "correspondence_disagreements": len(ties),
         "extraction_crosschecked_in_coq": len(xc),
+        "bridge_to_indexer_model": bridge,
         "violating_workspaces": len(bad_inputs),
         "compared": "interval map of every file (order, ranges, symbol ids), name/define_loc/reference_locs of every symbol in them, "
                     "goto_definition and references at every offset, index diagnostic ranges, top-level outline names",
